@@ -77,6 +77,55 @@ def is_tracked(x):
     return isinstance(x, TrackedArray)
 
 
+_PRIVATE_PROPS = {}
+
+
+def _private_properties(cls):
+    if cls not in _PRIVATE_PROPS:
+        _PRIVATE_PROPS[cls] = [k for k in dir(cls) if k.startswith("_") and not k.startswith("__") and isinstance(getattr(cls, k, None), property)]
+    return _PRIVATE_PROPS[cls]
+
+
+def _hidden_state(x, hash_fast):
+    """
+    Name-agnostic abstraction of the private bookkeeping of a tracked array and of every tracked array it is a
+    view of: each instance attribute is reduced to a flag / None / 'valid' or 'stale' (an integer that is or is
+    not the hash of the current bytes) / a type name.  Renaming or re-laying-out the private fields changes the
+    labels, not the partition into states.
+    """
+    out = []
+    cur, depth = x, 0
+    while is_tracked(cur) and depth < 8:
+        try:
+            want = hash_fast(cur.tobytes(order="C"))
+        except Exception:
+            want = None
+        items = []
+        for k, v in sorted(getattr(cur, "__dict__", {}).items()):
+            if isinstance(v, (bool, np.bool_)):
+                a = bool(v)
+            elif v is None:
+                a = None
+            elif isinstance(v, (int, np.integer)):
+                a = "valid" if int(v) == want else "stale"
+            else:
+                a = type(v).__name__
+            items.append((k, a))
+        # class-level properties that summarise the chain (e.g. a dirty flag derived from the bases)
+        for k in _private_properties(type(cur)):
+            if True:
+                try:
+                    v = getattr(cur, k)
+                except Exception:
+                    continue
+                if isinstance(v, (bool, np.bool_)):
+                    items.append((k, bool(v)))
+        out.append(tuple(items))
+        cur = cur.base
+        depth += 1
+    return tuple(out)
+
+
 # ---------------------------------------------------------------------------
 # write routes: f(x, k) changes the bytes of x (k = step counter, makes values fresh)
 # ---------------------------------------------------------------------------
@@ -349,6 +398,7 @@ class System:
         ctx.meta = [("base", None, 0)]  # (kind, parent index, depth)
         ctx.k = 0
         ctx.last_exc = None
+        ctx.hist = hist
         for a in hist:
             self.apply(ctx, a)
         return ctx
@@ -418,16 +468,27 @@ class System:
                 # keep handle lists aligned: a failed creation adds nothing
                 pass
 
+    def blind(self):
+        """True when the private bookkeeping of a tracked array cannot be observed (a refactor moved it out of the
+        instance): reading the hash must change the abstract state (a memo appears).  A blind abstraction would merge
+        states with different futures, so the search then falls back to histories as states (no merging)."""
+        if not hasattr(self, "_blind"):
+            st = self.starts()[0]
+            self._blind = False
+            a = self.canon(self.build(st, []))
+            b = self.canon(self.build(st, [["hash", 0]]))
+            self._blind = a == b
+        return self._blind
+
     def canon(self, ctx):
         from trimesh.caching import hash_fast
 
+        if getattr(self, "_blind", False):
+            return ("history", ctx.start, repr(ctx.hist))
         out = [ctx.start]
         for x, (kind, parent, depth) in zip(ctx.handles, ctx.meta):
             if is_tracked(x):
-                dirty = bool(getattr(x, "_dirty_hash", True))
-                memo = getattr(x, "_hashed", None)
-                valid = memo is not None and memo == hash_fast(x.tobytes(order="C"))
-                out.append((kind, parent, "T", dirty, memo is not None, valid, bool(x.flags.writeable),
+                out.append((kind, parent, "T", _hidden_state(x, hash_fast), bool(x.flags.writeable),
                             bool(x.flags.c_contiguous), isinstance(x.base, type(x))))
             elif isinstance(x, np.ndarray):
                 out.append((kind, parent, "U", bool(x.flags.writeable)))
@@ -703,13 +764,17 @@ def main(run):
     harness.seed_everything(run.seed)
     tier = run.tier
     sysm = _system_for(tier)
-    r = explorer.bfs(sysm, run, max_depth=40)
+    blind = sysm.blind()
+    if blind:
+        run.log("private bookkeeping of TrackedArray not observable: histories as states, depth 3")
+    r = explorer.bfs(sysm, run, max_depth=3 if blind else 40)
     deeper = None
     if tier != "quick":
         # three derived handles, reduced alphabets
         run.log("second search: 3 derived handles, reduced alphabet")
         s3 = System(["f64_2x3", "bool_2x2x2"], ["idx0", "view", "T", "ndview", "copy"], QUICK_ROUTES, max_derived=3, max_view_depth=2)
-        deeper = explorer.bfs(s3, run, max_depth=40)
+        s3._blind = blind
+        deeper = explorer.bfs(s3, run, max_depth=3 if blind else 40)
     cases = _container_cases(tier)
     chunks = [cases[i::64] for i in range(64)]
     run.merge(harness.pmap(_container_worker, chunks))
@@ -722,6 +787,7 @@ def main(run):
         "search": r,
         "search_3_handles": deeper,
         "container_programs": len(cases),
+        "state_abstraction": "histories (private bookkeeping not observable), bounded depth 3" if blind else "generic: every instance attribute of the array and of the tracked arrays it views, reduced to flag / None / valid / stale",
         "exhaustive": bool(r["frontier_closed"]),
         "samples": [
             {"start": "f64_2x3", "history": [["view", "idx0", 0], ["hash", 0], ["write", "setitem_item", 1], ["hash", 0]]},
